@@ -53,7 +53,11 @@ type hstream struct {
 	cerr     error // returned by Close
 	closes   int
 	yield    bool // Write yields to other goroutines before recording (C10)
-	onWrite  func()
+	// realClose: Close() ends the read side as the close of a real connection does (a blocked Read returns an
+	// error).  Used when the endpoint runs its own reader (NewEndPoint, EndPointFinalizer).
+	realClose bool
+	ended     bool // a Read has returned the stream's error: the reader is on its way out
+	onWrite   func()
 }
 
 func newHStream() *hstream {
@@ -73,6 +77,8 @@ func (s *hstream) Read(p []byte) (int, error) {
 	}
 	s.idle = false
 	if len(s.buf) == 0 {
+		s.ended = true
+		s.cond.Broadcast()
 		return 0, s.err
 	}
 	n := copy(p, s.buf)
@@ -157,6 +163,10 @@ func (s *hstream) Close() error {
 	defer s.mu.Unlock()
 	s.closes++
 	s.wcond.Broadcast()
+	if s.realClose && s.err == nil {
+		s.err = io.ErrClosedPipe
+		s.cond.Broadcast()
+	}
 	return s.cerr
 }
 func (s *hstream) String() string           { return "harness://stream" }
@@ -183,7 +193,7 @@ func (s *hstream) waitIdle(d time.Duration) bool {
 	defer t.Stop()
 	s.mu.Lock()
 	defer s.mu.Unlock()
-	for !(s.idle && len(s.buf) == 0) {
+	for !((s.idle || s.ended) && len(s.buf) == 0) {
 		if timedOut {
 			return false
 		}
@@ -218,7 +228,7 @@ func (s *hstream) waitQuiet(d time.Duration, needIdle bool, stop <-chan struct{}
 		if s.blockedW > 0 {
 			return true, true
 		}
-		if needIdle && s.idle && len(s.buf) == 0 {
+		if needIdle && (s.idle || s.ended) && len(s.buf) == 0 {
 			return false, true
 		}
 		if stopped {
@@ -239,6 +249,11 @@ func (s *hstream) writesSnapshot() [][]byte {
 	s.mu.Lock()
 	defer s.mu.Unlock()
 	return s.writes
+}
+func (s *hstream) closeCount() int {
+	s.mu.Lock()
+	defer s.mu.Unlock()
+	return s.closes
 }
 func (s *hstream) faults() int {
 	s.mu.Lock()
@@ -325,9 +340,18 @@ const (
 	pcTruncated        // half a header, then io.EOF
 	pcBadMagic         // a complete header with a wrong magic number (the stream stays readable)
 	pcCount
+	// not generated: the endpoint's own reader starts on a stream that Close() closed inside the set-up callback
+	pcClosedInSetup = 100
 )
 
 var pcNames = []string{"eof", "reset", "truncated-frame", "bad-magic"}
+
+func pcName(v int) string {
+	if v == pcClosedInSetup {
+		return "stream-closed-in-setup"
+	}
+	return pcNames[v%pcCount]
+}
 
 type sop struct {
 	Kind  int
@@ -360,7 +384,7 @@ func (o sop) String() string {
 		return fmt.Sprintf("Close(hold=%v)", o.Holds)
 	case opPeerClose:
 		if o.Var != pcEOF {
-			return fmt.Sprintf("PeerClose(%s hold=%v)", pcNames[o.Var%pcCount], o.Holds)
+			return fmt.Sprintf("PeerClose(%s hold=%v)", pcName(o.Var), o.Holds)
 		}
 		return fmt.Sprintf("PeerClose(hold=%v)", o.Holds)
 	case opFault:
@@ -379,20 +403,48 @@ func (o sop) String() string {
 	return "?"
 }
 
+// how the endpoint of a script is built
+const (
+	ctorHook        = iota // net.VerifEndPoint: the harness owns the process goroutine (its end is observable)
+	ctorFinalizer          // net.EndPointFinalizer: the first Setup operations run inside the set-up callback, before the endpoint reads
+	ctorNewEndPoint        // net.NewEndPoint
+)
+
 type c17script struct {
 	Name   string
 	Stream bool // messages go through the stream and the endpoint's own process loop
 	Ops    []sop
+	Ctor   int // ctor* constant; anything but ctorHook implies Stream
+	Setup  int // ctorFinalizer: number of leading operations run inside the callback
 }
 
 func (s c17script) String() string {
-	it := make([]string, len(s.Ops))
-	for i, o := range s.Ops {
-		it[i] = o.String()
+	var it []string
+	// runs of eight or more identical operations (the fill of a large table) are written once
+	for i := 0; i < len(s.Ops); {
+		t := s.Ops[i].String()
+		j := i + 1
+		for j < len(s.Ops) && s.Ops[j].String() == t {
+			j++
+		}
+		if j-i >= 8 {
+			it = append(it, fmt.Sprintf("%d x %s", j-i, t))
+		} else {
+			for k := i; k < j; k++ {
+				it = append(it, t)
+			}
+		}
+		i = j
 	}
 	mode := "direct"
 	if s.Stream {
 		mode = "stream"
+	}
+	switch s.Ctor {
+	case ctorFinalizer:
+		mode = fmt.Sprintf("stream, built by EndPointFinalizer with the first %d operations inside its set-up callback", s.Setup)
+	case ctorNewEndPoint:
+		mode = "stream, built by NewEndPoint"
 	}
 	return s.Name + "/" + mode + ": " + strings.Join(it, "; ")
 }
@@ -560,6 +612,8 @@ type runner17 struct {
 	stream   bool
 	wmode    int  // write fault in force
 	cerr     bool // stream.Close() answers an error
+	// EndPointFinalizer: stream.Close() calls made inside the set-up callback
+	setupCloses int
 }
 
 // call runs f with a deadline and recovers a panic raised on its goroutine.
@@ -630,25 +684,57 @@ func dclass(err error) int {
 
 func runScript(idx int, sc c17script) *caseObs {
 	obs := &caseObs{Index: idx, Desc: sc.String(), Contract: true}
-	r := &runner17{st: newHStream(), live: map[int]*hh{}, obs: obs, stream: sc.Stream}
-	r.e, r.process, r.dispatch = net.VerifEndPoint(r.st)
-	if sc.Stream {
-		r.procDone = make(chan struct{})
-		go func() {
-			defer close(r.procDone)
-			r.process()
-		}()
-		if !r.st.waitIdle(opTimeout) {
-			obs.End = 2
-			r.fail("the endpoint never started reading")
-			return obs
-		}
+	if sc.Ctor != ctorHook {
+		sc.Stream = true
 	}
+	r := &runner17{st: newHStream(), live: map[int]*hh{}, obs: obs, stream: sc.Stream}
+	inSetup := false // the operations run inside the set-up callback of EndPointFinalizer
 	maxLive, shutdownWithTwo := 0, false
-	emit := func(s string) { obs.Ops = append(obs.Ops, s) }
+	// the observed operations, with runs written once: k registrations with the same arguments that returned
+	// consecutive ids are one OMakes, the two steps of the close goroutines of consecutive handlers one OGoRange
+	// (C17Run.expand undoes both)
+	var runMake struct {
+		args    string
+		from, k int
+	}
+	var runGo struct{ from, k int }
+	flushRuns := func() {
+		if runMake.k == 1 {
+			obs.Ops = append(obs.Ops, fmt.Sprintf("OMake %s %d%%N", runMake.args, runMake.from))
+		} else if runMake.k > 1 {
+			obs.Ops = append(obs.Ops, fmt.Sprintf("OMakes %s %d%%N %d%%N", runMake.args, runMake.from, runMake.k))
+		}
+		runMake.k = 0
+		if runGo.k == 1 {
+			obs.Ops = append(obs.Ops, fmt.Sprintf("OGoCloser %d%%N", runGo.from), fmt.Sprintf("OGoClose %d%%N", runGo.from))
+		} else if runGo.k > 1 {
+			obs.Ops = append(obs.Ops, fmt.Sprintf("OGoRange %d%%N %d%%N", runGo.from, runGo.k))
+		}
+		runGo.k = 0
+	}
+	emit := func(s string) { flushRuns(); obs.Ops = append(obs.Ops, s) }
+	emitMake := func(args string, got int) {
+		if runMake.k > 0 && runMake.args == args && got == runMake.from+runMake.k {
+			runMake.k++
+			return
+		}
+		flushRuns()
+		runMake.args, runMake.from, runMake.k = args, got, 1
+	}
+	emitGoBoth := func(hid int) {
+		if runGo.k > 0 && hid == runGo.from+runGo.k {
+			runGo.k++
+			return
+		}
+		flushRuns()
+		runGo.from, runGo.k = hid, 1
+	}
 	ended := func(res string, what string) bool {
 		if res == "" {
 			return false
+		}
+		if inSetup {
+			what += " called from inside the set-up callback of EndPointFinalizer (before the endpoint reads the stream)"
 		}
 		if res == "hang" {
 			obs.End = 2
@@ -686,8 +772,7 @@ func runScript(idx int, sc c17script) *caseObs {
 				r.fail("the queue of handler h%d was not closed within %v of the shutdown", h.idx, opTimeout)
 				return false
 			}
-			emit(fmt.Sprintf("OGoCloser %d%%N", h.idx))
-			emit(fmt.Sprintf("OGoClose %d%%N", h.idx))
+			emitGoBoth(h.idx)
 		}
 		return true
 	}
@@ -821,15 +906,14 @@ func runScript(idx int, sc c17script) *caseObs {
 		return finishMsg(pm, res)
 	}
 	lastOp := ""
-loop:
-	for _, o := range sc.Ops {
+	doOp := func(o sop) bool {
 		if r.pending != nil && !(o.Kind == opClose || o.Kind == opPeerClose && !sc.Stream) {
 			if !resumePeer() {
-				break loop
+				return false
 			}
 		}
 		if r.pending == nil && lastOp != "" && !probe(lastOp) {
-			break loop
+			return false
 		}
 		lastOp = o.String()
 		if len(r.live) > maxLive {
@@ -857,7 +941,7 @@ loop:
 			id := -1
 			res := call(func() { id = r.e.MakeHandler(h.filter, h.q, cl) })
 			if ended(res, o.String()) {
-				break loop
+				return false
 			}
 			h.slot = id
 			r.hs = append(r.hs, h)
@@ -871,7 +955,7 @@ loop:
 			} else {
 				paths["make:free-slot"] = true
 			}
-			emit(fmt.Sprintf("OMake (%s) %s %d%%N %d%%N %d%%N", o.F.term(), hx.Bool(o.Fre), o.Cl, o.Cap, id))
+			emitMake(fmt.Sprintf("(%s) %s %d%%N %d%%N", o.F.term(), hx.Bool(o.Fre), o.Cl, o.Cap), id)
 		case opRemove:
 			var err error
 			if len(r.live) >= 2 {
@@ -882,7 +966,7 @@ loop:
 			res := r.call(func() { err = r.e.RemoveHandler(o.ID) })
 			emit(fmt.Sprintf("ORemove (%d)%%Z %s", o.ID, hx.Bool(err == nil)))
 			if ended(res, o.String()) {
-				break loop
+				return false
 			}
 			switch {
 			case err == nil:
@@ -917,7 +1001,7 @@ loop:
 			}
 		case opMsg:
 			if procExited {
-				continue // the process loop has returned: nothing reads the stream any more
+				return true // the process loop has returned: nothing reads the stream any more
 			}
 			m := o.M.message()
 			pm := &pendingMsg{o: o, before: map[*hh]int{}, d: 9}
@@ -966,14 +1050,14 @@ loop:
 			if blocked {
 				// dispatch holds the table and waits in the Write of the reply to a Call it could not deliver
 				r.pending = pm
-				continue
+				return true
 			}
 			if !finishMsg(pm, res) {
-				break loop
+				return false
 			}
 		case opClose, opPeerClose:
 			if procExited && o.Kind == opPeerClose {
-				continue
+				return true
 			}
 			pend := r.pending
 			if pend != nil {
@@ -1024,17 +1108,44 @@ loop:
 				was = liveInSlotOrder()
 				return true
 			}
+			pairAt := -1
 			if o.Kind == opClose {
+				// the endpoint's own reader (NewEndPoint, EndPointFinalizer once it has returned) sees the stream closed:
+				// it goes through its shutdown as well, concurrently with this Close()
+				ownReader := sc.Ctor != ctorHook && !inSetup && !procExited
+				closesBefore := r.st.closeCount()
 				res = call(func() { r.e.Close() })
 				if !finishPending("then-Close") {
-					break loop
+					return false
 				}
 				emit("OCloseAll false false")
 				paths["shutdown:Close:"+tbl] = true
+				if ownReader && res == "" {
+					if !waitUntil(opTimeout, func() bool { return r.st.closeCount() >= closesBefore+2 }) {
+						obs.End = 2
+						noteHang()
+						r.fail("%s returned and closed the stream; the endpoint's reader did not go through its own shutdown within %v (stream.Close() calls: %d)", what, opTimeout, r.st.closeCount()-closesBefore)
+						return false
+					}
+					emit("OCloseAll true true")
+					pairAt = len(obs.Ops) - 2
+					procExited = true
+					paths["shutdown:Close:then-own-reader"] = true
+				}
 			} else {
 				procExited = true
-				paths["shutdown:read-error:"+pcNames[o.Var%pcCount]+":"+tbl] = true
-				switch o.Var % pcCount {
+				closesBefore := r.st.closeCount()
+				if o.Var == pcClosedInSetup {
+					closesBefore = r.setupCloses
+				}
+				paths["shutdown:read-error:"+pcName(o.Var)+":"+tbl] = true
+				switch o.Var {
+				case pcClosedInSetup:
+					// nothing to do: the stream answers Read with an error since Close() was called in the callback
+				default:
+					o.Var %= pcCount
+				}
+				switch o.Var {
 				case pcEOF:
 					r.st.fail(io.EOF)
 				case pcReset:
@@ -1047,7 +1158,24 @@ loop:
 					copy(bad, []byte{0x42, 0xde, 0xad, 0x43, 1, 0, 0, 0, 0, 0, 0, 0, 0, 0, 1})
 					r.st.feed(bad)
 				}
-				if sc.Stream {
+				if sc.Stream && r.procDone == nil {
+					// the endpoint started its reader itself (NewEndPoint, EndPointFinalizer): the reader has gone through
+					// its closeWith when the stream has been closed once more and the table has been emptied (the
+					// scripts of these constructors register nothing after a read error, so the table stays empty)
+					if !waitUntil(opTimeout, func() bool {
+						if r.st.closeCount() <= closesBefore {
+							return false
+						}
+						for _, occupied := range net.VerifHandlerTable(r.e) {
+							if occupied {
+								return false
+							}
+						}
+						return true
+					}) {
+						res = "hang"
+					}
+				} else if sc.Stream {
 					select {
 					case <-r.procDone:
 					case <-time.After(opTimeout):
@@ -1057,16 +1185,31 @@ loop:
 					res = call(r.process)
 				}
 				if !finishPending("then-read-error") {
-					break loop
+					return false
 				}
 				emit("OCloseAll true true")
 			}
 			if ended(res, what) {
-				break loop
+				return false
 			}
 			r.live = map[int]*hh{}
 			if !afterShutdown(o, was) {
-				break loop
+				return false
+			}
+			if pairAt >= 0 {
+				// which of the two walks took the handlers?  The reader's hands its read error to the closers.
+				for _, h := range was {
+					h.mu.Lock()
+					if h.cl != 0 && h.closerArg == 2 {
+						obs.Ops[pairAt], obs.Ops[pairAt+1] = obs.Ops[pairAt+1], obs.Ops[pairAt]
+						pairAt = -1
+						obs.Dist = append(obs.Dist, "own-reader:its-walk-came-before-that-of-Close")
+					}
+					h.mu.Unlock()
+					if pairAt < 0 {
+						break
+					}
+				}
 			}
 		case opRelease, opReleaseLowest:
 			if o.Kind == opReleaseLowest {
@@ -1082,7 +1225,7 @@ loop:
 				}
 			}
 			if o.H >= len(r.hs) {
-				continue
+				return true
 			}
 			h := r.hs[o.H]
 			h.mu.Lock()
@@ -1090,7 +1233,7 @@ loop:
 			h.held = false
 			h.mu.Unlock()
 			if !held {
-				continue
+				return true
 			}
 			close(h.gate)
 			ok := waitUntil(opTimeout, func() bool { h.mu.Lock(); defer h.mu.Unlock(); return h.pull() })
@@ -1098,12 +1241,12 @@ loop:
 				obs.End = 2
 				noteHang()
 				r.fail("the queue of handler h%d was not closed within %v of its close callback returning", h.idx, opTimeout)
-				break loop
+				return false
 			}
 			emit(fmt.Sprintf("OGoClose %d%%N", h.idx))
 		case opRecv:
 			if o.H >= len(r.hs) {
-				continue
+				return true
 			}
 			h := r.hs[o.H]
 			h.mu.Lock()
@@ -1121,6 +1264,88 @@ loop:
 			}
 			h.mu.Unlock()
 		}
+		return true
+	}
+	runOps := func(ops []sop) bool {
+		for _, o := range ops {
+			if !doOp(o) {
+				return false
+			}
+		}
+		return true
+	}
+	started := func() bool {
+		if !r.st.waitIdle(opTimeout) {
+			obs.End = 2
+			r.fail("the endpoint never started reading")
+			return false
+		}
+		return true
+	}
+	switch sc.Ctor {
+	case ctorHook:
+		r.e, r.process, r.dispatch = net.VerifEndPoint(r.st)
+		if sc.Stream {
+			r.procDone = make(chan struct{})
+			go func() {
+				defer close(r.procDone)
+				r.process()
+			}()
+		}
+		if !sc.Stream || started() {
+			runOps(sc.Ops)
+		}
+	case ctorNewEndPoint:
+		r.st.realClose = true
+		if res := call(func() { r.e = net.NewEndPoint(r.st) }); res != "" {
+			ended(res, "NewEndPoint")
+		} else if started() {
+			runOps(sc.Ops)
+		}
+	case ctorFinalizer:
+		// the first Setup operations run inside the callback: the endpoint exists, its reader does not yet
+		k := sc.Setup
+		if k > len(sc.Ops) {
+			k = len(sc.Ops)
+		}
+		r.st.realClose = true
+		setupOK, setupDone, ctorDone := false, make(chan struct{}), make(chan struct{})
+		go func() {
+			defer close(ctorDone)
+			e := net.EndPointFinalizer(r.st, func(e net.EndPoint) {
+				defer close(setupDone)
+				r.e = e
+				inSetup = true
+				setupOK = runOps(sc.Ops[:k])
+				if setupOK && r.pending == nil && lastOp != "" {
+					setupOK = probe(lastOp)
+					lastOp = ""
+				}
+				r.setupCloses = r.st.closeCount()
+				inSetup = false
+			})
+			r.e = e
+		}()
+		select {
+		case <-setupDone:
+			select {
+			case <-ctorDone:
+				if setupOK && started() {
+					// a stream closed in the callback: the reader that starts now shuts the endpoint down at once
+					if r.setupCloses == 0 || doOp(sop{Kind: opPeerClose, Var: pcClosedInSetup}) {
+						runOps(sc.Ops[k:])
+					}
+				}
+			case <-time.After(opTimeout):
+				obs.End = 2
+				noteHang()
+				r.fail("EndPointFinalizer did not return within %v of its set-up callback returning", opTimeout)
+			}
+		case <-time.After(time.Duration(k+2) * 2 * opTimeout):
+			obs.End = 2
+			noteHang()
+			r.fail("the set-up callback of EndPointFinalizer did not finish")
+		}
 	}
 	if len(r.live) > maxLive {
 		maxLive = len(r.live)
@@ -1131,6 +1356,7 @@ loop:
 	if lastOp != "" && obs.End == 0 {
 		probe(lastOp)
 	}
+	flushRuns()
 	// final observation
 	for _, h := range r.hs {
 		h.mu.Lock()
@@ -1140,7 +1366,14 @@ loop:
 		for i, x := range h.stash {
 			ids[i] = uint64(x)
 		}
-		obs.Hs = append(obs.Hs, fmt.Sprintf("(%d%%N, %d%%N, %s, %s)", cc, h.closerArg, hx.Bool(closed), hx.NList(ids)))
+		ht := fmt.Sprintf("(%d%%N, %d%%N, %s, %s)", cc, h.closerArg, hx.Bool(closed), hx.NList(ids))
+		switch ht {
+		case "(1%N, 1%N, true, [])": // C17Run.hc1
+			ht = "hc1"
+		case "(0%N, 0%N, true, [])": // C17Run.hc0
+			ht = "hc0"
+		}
+		obs.Hs = append(obs.Hs, ht)
 		if obs.End == 0 && obs.Contract {
 			if cc > 1 {
 				r.fail("handler h%d: close callback invoked %d times", h.idx, cc)
@@ -1189,9 +1422,21 @@ loop:
 		r.st.fail(errors.New("harness: end of case"))
 	}
 	obs.Nontrivial = shutdownWithTwo
-	obs.Dist = append(obs.Dist, "mode:"+map[bool]string{true: "stream", false: "direct"}[sc.Stream], "c17script:"+sc.Name,
-		fmt.Sprintf("maxlive:%d", maxLive), fmt.Sprintf("end:%d", obs.End))
+	obs.Dist = append(obs.Dist, "mode:"+map[bool]string{true: "stream", false: "direct"}[sc.Stream], "c17script:"+strings.SplitN(sc.Name, "(", 2)[0],
+		"maxlive:"+liveBucket(maxLive), fmt.Sprintf("end:%d", obs.End))
 	return obs
+}
+
+// liveBucket: the largest number of handlers registered at once, exact up to 16, then by power-of-two ranges
+func liveBucket(n int) string {
+	if n <= 16 {
+		return strconv.Itoa(n)
+	}
+	lo := 16
+	for lo*2 < n {
+		lo *= 2
+	}
+	return fmt.Sprintf("%d-%d", lo+1, lo*2)
 }
 
 func wireTerm(w string) string {
@@ -1392,7 +1637,16 @@ func genScript(rng *hx.Rng, tier string) c17script {
 }
 
 // fixed scripts: the shapes the seeded mutations and the contract probes need
+var fixed17 []c17script
+
 func fixedScripts() []c17script {
+	if fixed17 == nil {
+		fixed17 = append(append(baseScripts(), ctorScripts()...), largeFixedScripts()...)
+	}
+	return fixed17
+}
+
+func baseScripts() []c17script {
 	keepAll := fdesc{Kind: 0, Tab: []bb{{true, true}, {true, true}, {true, true}}}
 	never := fdesc{Kind: 0, Tab: nil}
 	once := fdesc{Kind: 1, K: 0, A: bb{true, true}, B: bb{true, false}}
@@ -1406,19 +1660,19 @@ func fixedScripts() []c17script {
 	var out []c17script
 	for _, stream := range []bool{false, true} {
 		out = append(out,
-			c17script{"remove-twice", stream, []sop{mk(keepAll, 1, 2), mk(never, 1, 1), {Kind: opRemove, ID: 0}, {Kind: opRemove, ID: 0}, call(7, 0), {Kind: opClose}}},
-			c17script{"remove-then-traffic", stream, []sop{mk(keepAll, 1, 2), mk(keepAll, 0, 2), {Kind: opRemove, ID: 0}, ev(8, 1), ev(9, 1), {Kind: opClose}}},
-			c17script{"one-shot-then-traffic", stream, []sop{mk(once, 1, 1), mk(keepAll, 1, 3), ev(1, 0), ev(2, 0), ev(3, 0), {Kind: opRemove, ID: 0}, {Kind: opClose}}},
-			c17script{"one-shot-then-close", stream, []sop{mk(once, 1, 1), mk(once, 0, 1), ev(1, 0), {Kind: opClose}, {Kind: opClose}}},
-			c17script{"blocked-call", stream, []sop{mk(keepAll, 1, 1), mk(keepAll, 1, 0), call(1, 0), call(2, 1), ev(3, 1), {Kind: opRecv, H: 0}, call(4, 2), {Kind: opClose}}},
-			c17script{"close-twice", stream, []sop{mk(keepAll, 1, 1), mk(never, 0, 0), mk(never, 1, 0), {Kind: opClose}, {Kind: opClose}, {Kind: opRemove, ID: 1}}},
-			c17script{"close-held-reuse", stream, []sop{mk(keepAll, 1, 2), mk(keepAll, 1, 2), ev(1, 0), {Kind: opClose, Holds: []int{0, 1}}, mk(keepAll, 1, 2), ev(2, 0), {Kind: opRemove, ID: 1}, {Kind: opRelease, H: 1}, {Kind: opRemove, ID: 0}, {Kind: opRelease, H: 0}}},
-			c17script{"peer-close", stream, []sop{mk(keepAll, 1, 2), mk(never, 1, 0), mk(once, 0, 1), ev(1, 0), {Kind: opPeerClose}, {Kind: opRemove, ID: 0}}},
-			c17script{"peer-close-after-close", stream, []sop{mk(keepAll, 1, 2), {Kind: opClose}, {Kind: opPeerClose}, {Kind: opRemove, ID: 0}}},
-			c17script{"close-make-peer-close", false || stream, []sop{mk(keepAll, 1, 2), {Kind: opClose}, mk(keepAll, 1, 2), mk(never, 0, 0), ev(5, 0), {Kind: opPeerClose}, {Kind: opRemove, ID: 0}}},
-			c17script{"remove-bad-ids", stream, []sop{{Kind: opRemove, ID: 0}, {Kind: opRemove, ID: -1}, {Kind: opRemove, ID: 10}, mk(never, 1, 0), {Kind: opRemove, ID: 1}, {Kind: opRemove, ID: 10}, {Kind: opRemove, ID: 0}, {Kind: opRemove, ID: 0}}},
+			c17script{Name: "remove-twice", Stream: stream, Ops: []sop{mk(keepAll, 1, 2), mk(never, 1, 1), {Kind: opRemove, ID: 0}, {Kind: opRemove, ID: 0}, call(7, 0), {Kind: opClose}}},
+			c17script{Name: "remove-then-traffic", Stream: stream, Ops: []sop{mk(keepAll, 1, 2), mk(keepAll, 0, 2), {Kind: opRemove, ID: 0}, ev(8, 1), ev(9, 1), {Kind: opClose}}},
+			c17script{Name: "one-shot-then-traffic", Stream: stream, Ops: []sop{mk(once, 1, 1), mk(keepAll, 1, 3), ev(1, 0), ev(2, 0), ev(3, 0), {Kind: opRemove, ID: 0}, {Kind: opClose}}},
+			c17script{Name: "one-shot-then-close", Stream: stream, Ops: []sop{mk(once, 1, 1), mk(once, 0, 1), ev(1, 0), {Kind: opClose}, {Kind: opClose}}},
+			c17script{Name: "blocked-call", Stream: stream, Ops: []sop{mk(keepAll, 1, 1), mk(keepAll, 1, 0), call(1, 0), call(2, 1), ev(3, 1), {Kind: opRecv, H: 0}, call(4, 2), {Kind: opClose}}},
+			c17script{Name: "close-twice", Stream: stream, Ops: []sop{mk(keepAll, 1, 1), mk(never, 0, 0), mk(never, 1, 0), {Kind: opClose}, {Kind: opClose}, {Kind: opRemove, ID: 1}}},
+			c17script{Name: "close-held-reuse", Stream: stream, Ops: []sop{mk(keepAll, 1, 2), mk(keepAll, 1, 2), ev(1, 0), {Kind: opClose, Holds: []int{0, 1}}, mk(keepAll, 1, 2), ev(2, 0), {Kind: opRemove, ID: 1}, {Kind: opRelease, H: 1}, {Kind: opRemove, ID: 0}, {Kind: opRelease, H: 0}}},
+			c17script{Name: "peer-close", Stream: stream, Ops: []sop{mk(keepAll, 1, 2), mk(never, 1, 0), mk(once, 0, 1), ev(1, 0), {Kind: opPeerClose}, {Kind: opRemove, ID: 0}}},
+			c17script{Name: "peer-close-after-close", Stream: stream, Ops: []sop{mk(keepAll, 1, 2), {Kind: opClose}, {Kind: opPeerClose}, {Kind: opRemove, ID: 0}}},
+			c17script{Name: "close-make-peer-close", Stream: false || stream, Ops: []sop{mk(keepAll, 1, 2), {Kind: opClose}, mk(keepAll, 1, 2), mk(never, 0, 0), ev(5, 0), {Kind: opPeerClose}, {Kind: opRemove, ID: 0}}},
+			c17script{Name: "remove-bad-ids", Stream: stream, Ops: []sop{{Kind: opRemove, ID: 0}, {Kind: opRemove, ID: -1}, {Kind: opRemove, ID: 10}, mk(never, 1, 0), {Kind: opRemove, ID: 1}, {Kind: opRemove, ID: 10}, {Kind: opRemove, ID: 0}, {Kind: opRemove, ID: 0}}},
 		)
-		fill := c17script{"fill-12", stream, nil}
+		fill := c17script{Name: "fill-12", Stream: stream, Ops: nil}
 		for i := 0; i < 12; i++ {
 			fill.Ops = append(fill.Ops, mk(keepAll, i%2, 1))
 		}
@@ -1444,35 +1698,338 @@ func fixedScripts() []c17script {
 		for mode := wmOK + 1; mode < wmCount; mode++ {
 			for _, fu := range followUps {
 				ops := []sop{mk(keepAll, 1, 0), mk(keepAll, 1, 1), fault(mode, false), call(1, 0), call(2, 0)}
-				out = append(out, c17script{"blocked-call-write-" + wmNames[mode] + "-then-" + fu.name, stream, append(ops, fu.ops...)})
+				out = append(out, c17script{Name: "blocked-call-write-" + wmNames[mode] + "-then-" + fu.name, Stream: stream, Ops: append(ops, fu.ops...)})
 			}
 			// the handler that could not take the Call leaves on that very message (keep == false), the stream
 			// recovers, the slot is reused
-			out = append(out, c17script{"blocked-call-write-" + wmNames[mode] + "-self-removal", stream, []sop{
+			out = append(out, c17script{Name: "blocked-call-write-" + wmNames[mode] + "-self-removal", Stream: stream, Ops: []sop{
 				mk(oneShotCall, 1, 0), mk(oneShotCall, 0, 0), mk(keepAll, 1, 1), fault(mode, false), call(1, 2), fault(wmOK, false),
 				mk(keepAll, 1, 0), call(2, 0), {Kind: opRemove, ID: 0}, {Kind: opClose}}})
 		}
 		// stream.Close() answers an error; the read side ends in every way, on an empty and on an occupied table
 		out = append(out,
-			c17script{"close-error-close", stream, []sop{mk(keepAll, 1, 1), mk(never, 0, 0), fault(wmClosedPipe, true), call(1, 0), call(2, 0), {Kind: opClose}, {Kind: opClose}, mk(never, 1, 0), {Kind: opRemove, ID: 0}}},
-			c17script{"close-error-empty-table", stream, []sop{fault(wmOK, true), {Kind: opClose}, {Kind: opRemove, ID: 0}, mk(never, 1, 0), {Kind: opRemove, ID: 0}}},
+			c17script{Name: "close-error-close", Stream: stream, Ops: []sop{mk(keepAll, 1, 1), mk(never, 0, 0), fault(wmClosedPipe, true), call(1, 0), call(2, 0), {Kind: opClose}, {Kind: opClose}, mk(never, 1, 0), {Kind: opRemove, ID: 0}}},
+			c17script{Name: "close-error-empty-table", Stream: stream, Ops: []sop{fault(wmOK, true), {Kind: opClose}, {Kind: opRemove, ID: 0}, mk(never, 1, 0), {Kind: opRemove, ID: 0}}},
 		)
 		for v := 0; v < pcCount; v++ {
 			out = append(out,
-				c17script{"read-side-" + pcNames[v] + "-occupied", stream, []sop{mk(keepAll, 1, 0), mk(keepAll, 0, 1), fault(wmPartial, v%2 == 1), call(1, 0), {Kind: opPeerClose, Var: v, Holds: []int{0}}, {Kind: opRemove, ID: 0}, {Kind: opRelease, H: 0}, {Kind: opClose}}},
-				c17script{"read-side-" + pcNames[v] + "-empty", stream, []sop{call(1, 0), {Kind: opPeerClose, Var: v}, {Kind: opRemove, ID: 0}, {Kind: opClose}}},
+				c17script{Name: "read-side-" + pcNames[v] + "-occupied", Stream: stream, Ops: []sop{mk(keepAll, 1, 0), mk(keepAll, 0, 1), fault(wmPartial, v%2 == 1), call(1, 0), {Kind: opPeerClose, Var: v, Holds: []int{0}}, {Kind: opRemove, ID: 0}, {Kind: opRelease, H: 0}, {Kind: opClose}}},
+				c17script{Name: "read-side-" + pcNames[v] + "-empty", Stream: stream, Ops: []sop{call(1, 0), {Kind: opPeerClose, Var: v}, {Kind: opRemove, ID: 0}, {Kind: opClose}}},
 			)
 		}
 	}
 	// the documented contract: callbacks must not call back into the endpoint
 	out = append(out,
-		c17script{"reenter-closer-remove", false, []sop{{Kind: opMake, F: keepAll, Cl: 2, Cap: 1}, {Kind: opRemove, ID: 0}}},
-		c17script{"reenter-closer-close", false, []sop{{Kind: opMake, F: keepAll, Cl: 2, Cap: 1}, {Kind: opClose}, {Kind: opRemove, ID: 0}}},
-		c17script{"reenter-filter", false, []sop{{Kind: opMake, F: keepAll, Fre: true, Cl: 1, Cap: 1}, call(1, 0)}},
-		c17script{"reenter-closer-nonkeep", false, []sop{{Kind: opMake, F: once, Cl: 2, Cap: 1}, ev(1, 0)}},
+		c17script{Name: "reenter-closer-remove", Stream: false, Ops: []sop{{Kind: opMake, F: keepAll, Cl: 2, Cap: 1}, {Kind: opRemove, ID: 0}}},
+		c17script{Name: "reenter-closer-close", Stream: false, Ops: []sop{{Kind: opMake, F: keepAll, Cl: 2, Cap: 1}, {Kind: opClose}, {Kind: opRemove, ID: 0}}},
+		c17script{Name: "reenter-filter", Stream: false, Ops: []sop{{Kind: opMake, F: keepAll, Fre: true, Cl: 1, Cap: 1}, call(1, 0)}},
+		c17script{Name: "reenter-closer-nonkeep", Stream: false, Ops: []sop{{Kind: opMake, F: once, Cl: 2, Cap: 1}, ev(1, 0)}},
 	)
 	return out
 }
+
+// ---------- endpoints built by the package's own constructors ----------
+
+// ctorScripts: the endpoint is built by EndPointFinalizer (the first operations run inside its set-up callback,
+// when the endpoint exists and its reader does not yet) or by NewEndPoint; the reader is the endpoint's own
+// goroutine.  Nothing is registered after a read error (the end of that goroutine is not observable, only its
+// effects: the stream closed once more, the table empty).
+func ctorScripts() []c17script {
+	keepAll := fdesc{Kind: 0, Tab: []bb{{true, true}, {true, true}, {true, true}}}
+	never := fdesc{Kind: 0, Tab: nil}
+	once := fdesc{Kind: 1, K: 0, A: bb{true, true}, B: bb{true, false}}
+	call := func(id uint32, act uint32) sop {
+		return sop{Kind: opMsg, M: mspec{Typ: 1, Service: 1, Object: 1, Action: act, ID: id}}
+	}
+	ev := func(id uint32, act uint32) sop {
+		return sop{Kind: opMsg, M: mspec{Typ: 5, Service: 1, Object: 1, Action: act, ID: id, Payload: []byte{1, 2}}}
+	}
+	mk := func(f fdesc, cl, cap int) sop { return sop{Kind: opMake, F: f, Cl: cl, Cap: cap} }
+	fin := func(name string, setup int, ops ...sop) c17script {
+		return c17script{Name: name, Stream: true, Ctor: ctorFinalizer, Setup: setup, Ops: ops}
+	}
+	nep := func(name string, ops ...sop) c17script {
+		return c17script{Name: name, Stream: true, Ctor: ctorNewEndPoint, Ops: ops}
+	}
+	out := []c17script{
+		fin("finalizer-register-in-setup", 2, mk(keepAll, 1, 2), mk(once, 0, 1), ev(1, 0), ev(2, 0), sop{Kind: opRemove, ID: 0}, sop{Kind: opClose}),
+		fin("finalizer-close-in-setup", 3, mk(keepAll, 1, 1), mk(never, 0, 0), sop{Kind: opClose}, sop{Kind: opRemove, ID: 0}, mk(keepAll, 1, 1), ev(1, 0), sop{Kind: opClose}),
+		fin("finalizer-close-empty-in-setup", 1, sop{Kind: opClose}, mk(keepAll, 1, 1), ev(1, 0), sop{Kind: opClose}),
+		fin("finalizer-close-held-in-setup", 3, mk(keepAll, 1, 1), mk(keepAll, 1, 1), sop{Kind: opClose, Holds: []int{0}}, mk(keepAll, 0, 1), sop{Kind: opRelease, H: 0}, ev(1, 0), sop{Kind: opPeerClose}, sop{Kind: opRemove, ID: 0}),
+		fin("finalizer-remove-in-setup", 4, mk(keepAll, 1, 1), mk(never, 1, 0), sop{Kind: opRemove, ID: 0}, sop{Kind: opRemove, ID: 0}, mk(keepAll, 0, 2), ev(1, 0), sop{Kind: opPeerClose}, sop{Kind: opRemove, ID: 1}),
+		fin("finalizer-empty-setup", 0, sop{Kind: opClose}, sop{Kind: opClose}),
+		fin("finalizer-close-twice-in-setup", 4, mk(keepAll, 1, 1), sop{Kind: opClose}, sop{Kind: opClose}, mk(keepAll, 1, 1), ev(1, 0), sop{Kind: opClose}),
+		fin("finalizer-close-error-in-setup", 3, mk(keepAll, 1, 0), sop{Kind: opFault, Mode: wmClosedPipe, CErr: true}, sop{Kind: opClose}, mk(keepAll, 1, 0), call(1, 0), sop{Kind: opClose}),
+		fin("finalizer-fill-12-in-setup", 12, mk(keepAll, 1, 1), mk(never, 0, 0), mk(never, 1, 0), mk(never, 1, 0), mk(never, 1, 0), mk(never, 1, 0), mk(never, 1, 0), mk(never, 1, 0),
+			mk(never, 1, 0), mk(never, 1, 0), mk(never, 1, 0), mk(keepAll, 1, 1), ev(1, 0), sop{Kind: opRemove, ID: 11}, sop{Kind: opClose}),
+		nep("newendpoint-basic", mk(keepAll, 1, 2), mk(once, 1, 1), ev(1, 0), ev(2, 0), sop{Kind: opRemove, ID: 0}, mk(never, 0, 0), sop{Kind: opClose}, sop{Kind: opClose}),
+		nep("newendpoint-close-then-read-error", mk(keepAll, 1, 2), sop{Kind: opClose, Holds: []int{0}}, sop{Kind: opPeerClose}, sop{Kind: opRelease, H: 0}, sop{Kind: opRemove, ID: 0}),
+	}
+	for v := 0; v < pcCount; v++ {
+		out = append(out,
+			nep("newendpoint-read-side-"+pcNames[v], mk(keepAll, 1, 2), mk(never, 0, 0), ev(1, 0), sop{Kind: opPeerClose, Var: v, Holds: []int{0}}, sop{Kind: opRemove, ID: 0}, sop{Kind: opRelease, H: 0}, sop{Kind: opClose}),
+			fin("finalizer-read-side-"+pcNames[v], 2, mk(keepAll, 1, 2), mk(never, 1, 0), ev(1, 0), sop{Kind: opPeerClose, Var: v}, sop{Kind: opRemove, ID: 1}, sop{Kind: opClose}),
+		)
+	}
+	for i := range out {
+		out[i] = ctorSanitize(out[i])
+	}
+	return out
+}
+
+// genCtorScript: a random stream-mode script run on an endpoint built by one of the package's constructors
+func genCtorScript(rng *hx.Rng, tier string) c17script {
+	var sc c17script
+	for {
+		sc = genScript(rng, tier)
+		if sc.Stream {
+			break
+		}
+	}
+	if rng.Chance(0.3) {
+		sc.Ctor = ctorNewEndPoint
+		sc.Name += "-newendpoint"
+		return ctorSanitize(sc)
+	}
+	sc.Ctor = ctorFinalizer
+	sc.Name += "-finalizer"
+	lead := 0
+	for lead < len(sc.Ops) && sc.Ops[lead].Kind != opMsg && sc.Ops[lead].Kind != opPeerClose {
+		lead++
+	}
+	sc.Setup = lead
+	if rng.Chance(0.3) {
+		sc.Setup = rng.Intn(lead + 1)
+	}
+	return ctorSanitize(sc)
+}
+
+// ctorSanitize: the endpoint's own reader ends when the stream is closed (Close, read error) and nothing tells the
+// harness when its walk over the table is over: nothing is registered after the first shutdown that reader takes
+// part in (a Close() inside the set-up callback is followed by registrations inside the callback only).
+func ctorSanitize(sc c17script) c17script {
+	var ops []sop
+	gone, closedInSetup := false, false
+	setup := sc.Setup
+	for i, o := range sc.Ops {
+		in := sc.Ctor == ctorFinalizer && i < sc.Setup
+		if in && (o.Kind == opMsg || o.Kind == opPeerClose) {
+			setup-- // the reader does not run yet
+			continue
+		}
+		if o.Kind == opMake && (gone || closedInSetup && !in) {
+			continue
+		}
+		if o.Kind == opPeerClose || o.Kind == opClose {
+			if in {
+				closedInSetup = true
+			} else {
+				gone = true
+			}
+		}
+		ops = append(ops, o)
+	}
+	sc.Ops, sc.Setup = ops, setup
+	return sc
+}
+
+// ---------- large handler tables ----------
+
+// ids next to every small power of two (and to the initial size of the table)
+var boundaries17 = []int{0, 1, 7, 8, 9, 10, 11, 15, 16, 17, 31, 32, 33, 63, 64, 65, 127, 128, 129, 255, 256, 257}
+
+// largeScript: n handlers live at once, then — with the table that large — handlers leaving on a message,
+// removals at the boundary ids (one at a time and in a batch), registrations that must take exactly the freed
+// ids (lowest first, then append), traffic, a shutdown with closers held, reuse of the emptied table.
+func largeScript(n int, stream bool) c17script {
+	keepAll := fdesc{Kind: 0, Tab: []bb{{true, true}, {true, true}, {true, true}}}
+	leaveOn2 := fdesc{Kind: 0, Tab: []bb{{true, true}, {true, true}, {true, false}}}
+	never := fdesc{Kind: 0, Tab: nil}
+	ev := func(id uint32, act uint32) sop {
+		return sop{Kind: opMsg, M: mspec{Typ: 5, Service: 1, Object: 1, Action: act, ID: id, Payload: []byte{1}}}
+	}
+	mk := func(f fdesc, cl, cap int) sop { return sop{Kind: opMake, F: f, Cl: cl, Cap: cap} }
+	isB := map[int]bool{}
+	var bs []int
+	for _, b := range boundaries17 {
+		if b < n {
+			isB[b] = true
+			bs = append(bs, b)
+		}
+	}
+	leaves := map[int]bool{}
+	var ls []int
+	for _, b := range []int{9, 17, 33, 65, 129, 257} {
+		if b < n {
+			leaves[b] = true
+			ls = append(ls, b)
+		}
+	}
+	sc := c17script{Name: fmt.Sprintf("large-table-%d", n), Stream: stream}
+	add := func(o ...sop) { sc.Ops = append(sc.Ops, o...) }
+	for i := 0; i < n; i++ {
+		cl := 1
+		if i/16%4 == 2 { // ids 32..47, 96..111, 160..175, 224..239: no close callback
+			cl = 0
+		}
+		switch {
+		case leaves[i]:
+			add(mk(leaveOn2, cl, 2))
+		case isB[i] || i == n-1:
+			add(mk(keepAll, cl, 2))
+		default:
+			add(mk(never, cl, 0))
+		}
+	}
+	add(ev(1, 0), ev(2, 2)) // the second one makes the handlers next to the powers of two leave
+	for range ls {
+		add(mk(never, 1, 0))
+	}
+	for _, b := range bs {
+		add(sop{Kind: opRemove, ID: b}, sop{Kind: opRemove, ID: b}, mk(keepAll, 1, 1))
+	}
+	for i := len(bs) - 1; i >= 0; i-- {
+		add(sop{Kind: opRemove, ID: bs[i]})
+	}
+	add(ev(3, 1))
+	for i := range bs {
+		if i%2 == 0 {
+			add(mk(keepAll, 1, 1))
+		} else {
+			add(mk(never, 0, 0))
+		}
+	}
+	add(mk(never, 1, 0)) // the table is full: appended
+	add(sop{Kind: opRemove, ID: n}, sop{Kind: opRemove, ID: n + 1}, sop{Kind: opRemove, ID: n - 1}, sop{Kind: opRemove, ID: -1}, sop{Kind: opRemove, ID: n})
+	add(ev(4, 0), sop{Kind: opClose, Holds: []int{2, 70}})
+	add(mk(keepAll, 1, 1), ev(5, 0), sop{Kind: opReleaseLowest}, sop{Kind: opRemove, ID: 0}, sop{Kind: opReleaseLowest}, sop{Kind: opClose})
+	return sc
+}
+
+func largeFixedScripts() []c17script {
+	return []c17script{largeScript(65, false), largeScript(66, true), largeScript(129, false), largeScript(257, false), largeScript(300, true)}
+}
+
+// genLargeScript: 65..300 handlers registered (any n from 1 in the thorough tier), then a random sequence in which
+// removals favour the ids around the powers of two and the ends of the table and are mostly followed by a registration
+func genLargeScript(rng *hx.Rng, tier string) c17script {
+	n := 65 + rng.Intn(236)
+	if tier == "thorough" && rng.Chance(0.25) {
+		n = 1 + rng.Intn(300)
+	}
+	never := fdesc{Kind: 0, Tab: nil}
+	sc := c17script{Name: "random-large-table", Stream: rng.Chance(0.3)}
+	made := 0
+	var interesting []int // creation indices of handlers whose filter selects something
+	mkOp := func() sop {
+		o := sop{Kind: opMake, F: never, Cl: rng.Pick(0, 1, 1, 1), Cap: 0}
+		if rng.Chance(0.1) {
+			o.F, o.Cap = genFilter(rng), rng.Pick(1, 1, 2, 3)
+			interesting = append(interesting, made)
+		}
+		made++
+		return o
+	}
+	for i := 0; i < n; i++ {
+		sc.Ops = append(sc.Ops, mkOp())
+	}
+	var removed []int
+	pickID := func() int {
+		switch rng.Intn(10) {
+		case 0, 1, 2, 3:
+			return boundaries17[rng.Intn(len(boundaries17))] + rng.Pick(-1, 0, 0, 1)
+		case 4:
+			return 64*(1+rng.Intn(4)) + rng.Intn(64)
+		case 5:
+			return n + rng.Pick(-2, -1, -1, 0, 1)
+		case 6:
+			if len(removed) > 0 {
+				return removed[rng.Intn(len(removed))]
+			}
+			return rng.Intn(n)
+		case 7:
+			return rng.Pick(-1, -2, n+5, 1000)
+		}
+		return rng.Intn(n + 2)
+	}
+	msgID := uint32(0)
+	shut := false
+	var held []int
+	m := 25 + rng.Intn(30)
+	for i := 0; i < m; i++ {
+		x := rng.Intn(100)
+		switch {
+		case x < 40:
+			k := 1
+			if rng.Chance(0.25) {
+				k = 2 + rng.Intn(4)
+			}
+			for j := 0; j < k; j++ {
+				id := pickID()
+				removed = append(removed, id)
+				sc.Ops = append(sc.Ops, sop{Kind: opRemove, ID: id})
+			}
+			if rng.Chance(0.6) {
+				for j := rng.Intn(k + 2); j > 0; j-- {
+					sc.Ops = append(sc.Ops, mkOp())
+				}
+			}
+		case x < 62:
+			sc.Ops = append(sc.Ops, mkOp())
+		case x < 84:
+			if shut && rng.Chance(0.7) {
+				continue
+			}
+			msgID++
+			sc.Ops = append(sc.Ops, sop{Kind: opMsg, M: mspec{Typ: uint32(rng.Pick(1, 5, 5, 5, 2, 7)), Service: 1, Object: 1, Action: uint32(rng.Intn(4)), ID: msgID}})
+		case x < 90:
+			if len(interesting) > 0 {
+				sc.Ops = append(sc.Ops, sop{Kind: opRecv, H: interesting[rng.Intn(len(interesting))]})
+			}
+		case x < 94:
+			var holds []int
+			for j := rng.Intn(4); j > 0; j-- {
+				holds = append(holds, rng.Intn(made))
+			}
+			held = append(held, holds...)
+			sc.Ops = append(sc.Ops, sop{Kind: opClose, Holds: holds})
+			shut = true
+		default:
+			if len(held) > 0 {
+				sc.Ops = append(sc.Ops, sop{Kind: opRelease, H: held[rng.Intn(len(held))]})
+			}
+		}
+	}
+	if rng.Chance(0.4) {
+		sc.Ops = append(sc.Ops, sop{Kind: opPeerClose, Var: rng.Pick(pcEOF, pcEOF, pcReset, pcTruncated, pcBadMagic)})
+	} else {
+		sc.Ops = append(sc.Ops, sop{Kind: opClose})
+	}
+	sc.Ops = append(sc.Ops, sop{Kind: opRemove, ID: pickID()}, mkOp(), sop{Kind: opRemove, ID: 0}, sop{Kind: opClose})
+	return sc
+}
+
+// the families that follow the random scripts: large tables (random, and in the thorough tier every size 1..300)
+// and endpoints built by the package's constructors
+func nLarge17(tier string) int {
+	if tier == "thorough" {
+		return 400
+	}
+	return 12
+}
+func nSweep17(tier string) int {
+	if tier == "thorough" {
+		return 300
+	}
+	return 0
+}
+func nCtor17(tier string) int {
+	if tier == "thorough" {
+		return 2000
+	}
+	return 40
+}
+func nExtra17(tier string) int { return nLarge17(tier) + nSweep17(tier) + nCtor17(tier) }
 
 // requiredPaths17: the path tags (runScript) the fixed scripts reach on a tree that satisfies the property
 func requiredPaths17() []string {
@@ -1560,10 +2117,23 @@ func scriptFor(seed uint64, tier string, k int) c17script {
 	if k < len(fx) {
 		return fx[k]
 	}
+	nr := nRandom17(tier)
+	if j := k - len(fx) - nr; j >= 0 && j < nExtra17(tier) {
+		rng := hx.NewRng(hx.NewRng(seed).U64() ^ (uint64(k) * 0xD1342543DE82EF95))
+		switch {
+		case j < nLarge17(tier):
+			return genLargeScript(rng, tier)
+		case j < nLarge17(tier)+nSweep17(tier):
+			n := j - nLarge17(tier) + 1
+			sc := largeScript(n, n%3 == 0)
+			sc.Name = fmt.Sprintf("large-table-sweep(n=%d)", n)
+			return sc
+		}
+		return genCtorScript(rng, tier)
+	}
 	if tier == "thorough" {
-		nr := nRandom17(tier)
 		e1 := exhCount(exhModelLetters, exhModelLen)
-		if j := k - len(fx) - nr; j >= 0 {
+		if j := k - len(fx) - nr - nExtra17(tier); j >= 0 {
 			if j < e1 {
 				return exhScript(exhModelLetters, j, "exhaustive")
 			}
@@ -1582,7 +2152,7 @@ func nRandom17(tier string) int {
 }
 
 func nCases17(tier string) int {
-	n := len(fixedScripts()) + nRandom17(tier)
+	n := len(fixedScripts()) + nRandom17(tier) + nExtra17(tier)
 	if tier == "thorough" {
 		n += exhCount(exhModelLetters, exhModelLen) + exhCount(exhDeepLetters, exhDeepLen) - exhCount(exhDeepLetters, exhModelLen)
 	}
@@ -1611,6 +2181,15 @@ func stressRound(seed uint64, round int) (fails []string, stats map[string]int) 
 	var shutdownStart int64 // ticket taken when the shutdown begins (0: not yet)
 	nWorkers := 2 + rng.Intn(4)
 	perWorker := 5 + rng.Intn(25)
+	removeP := 0.6
+	// every fifth round: a large table — the workers keep most of what they register, 100..400 handlers are live
+	// when the shutdown comes
+	large := round%5 == 4
+	if large {
+		nWorkers = 3 + rng.Intn(3)
+		perWorker = 40 + rng.Intn(40)
+		removeP = 0.15
+	}
 	nMsgs := 50 + rng.Intn(300)
 	peerClose := rng.Chance(0.4)
 	shutAfter := rng.Intn(nMsgs + 1)
@@ -1668,7 +2247,7 @@ func stressRound(seed uint64, round int) (fails []string, stats map[string]int) 
 				for k := wr.Intn(20); k > 0; k-- {
 					runtime.Gosched()
 				}
-				if keepAlways && wr.Chance(0.6) {
+				if keepAlways && wr.Chance(removeP) {
 					err := e.RemoveHandler(h.slot)
 					started := atomic.LoadInt64(&shutdownStart) != 0
 					if !started {
@@ -1740,6 +2319,9 @@ func stressRound(seed uint64, round int) (fails []string, stats map[string]int) 
 			round, d, faultAt, wmNames[faultMode], st.faults())}, stats
 	}
 	stats["faulty-writes"] += st.faults()
+	if len(net.VerifHandlerTable(e)) > 64 {
+		stats["rounds-with-more-than-64-handlers-live"]++
+	}
 	start := atomic.LoadInt64(&shutdownStart)
 	mu.Lock()
 	hs := append([]*hh(nil), all...)
@@ -1925,12 +2507,23 @@ func runC17(res *hx.Result, rng *hx.Rng, tier string, outdir string) {
 	res.Rule = "operation sequences on one endPoint (MakeHandler with scripted table/stateful filters, nil or recording closers, queues of capacity 0..3; " +
 		"RemoveHandler of live, stale, negative and out-of-range ids; incoming messages of every type, directly through dispatch or through the stream and the " +
 		"endpoint's own process loop; Close with closers held inside their callback; read error on the stream; consumer receives), fixed scripts + random ones; " +
+		"tables of 65..300 handlers with removals and registrations at the ids next to the powers of two; endpoints built by EndPointFinalizer (operations inside " +
+		"the set-up callback) and NewEndPoint; " +
 		"non-trivial = a removal or shutdown happens while >= 2 handlers are registered; distinct by sha256 of the c17script text"
 	total := nCases17(tier)
 	obsPath := filepath.Join(outdir, "C17_obs.jsonl")
 	os.Remove(obsPath)
 	cf := hx.NewCases(outdir, "C17", "From QV Require Import Reader Message Endpoint C17Run.", "mismatches cases", res, "cases", "ocase")
 	next, crashes := 0, 0
+	if rg := strings.Split(os.Getenv("QV_C17_RANGE"), ":"); len(rg) == 2 {
+		// development aid: only the cases from:to (indices as in scriptFor); the verdict of such a run is partial
+		from, _ := strconv.Atoi(rg[0])
+		to, _ := strconv.Atoi(rg[1])
+		if from >= 0 && to <= total && from < to {
+			next, total = from, to
+			res.Notes = append(res.Notes, fmt.Sprintf("PARTIAL RUN: QV_C17_RANGE restricts the operation sequences to indices %d..%d", from, to-1))
+		}
+	}
 	done := map[int]*caseObs{}
 	for next < total && crashes < 25 {
 		cmd := exec.Command(os.Args[0], "--seed", fmt.Sprint(res.Seed), "--tier", tier, "--out", outdir, "C17.child")
@@ -2131,9 +2724,10 @@ func runStress17(res *hx.Result, tier string, outdir string) {
 	res.Notes = append(res.Notes, fmt.Sprintf("concurrent stress on net.NewEndPoint: %d rounds, %d handlers (%d registered before the shutdown began, %d closed), %d messages delivered, %d Write calls of the endpoint answered with a fault",
 		doneRounds, agg["handlers"], agg["registered-before-shutdown"], agg["closed"], agg["delivered"], agg["faulty-writes"]))
 	res.Distribution["stress:rounds"] = doneRounds
+	res.Distribution["stress:rounds-with-more-than-64-handlers-live"] = agg["rounds-with-more-than-64-handlers-live"]
 	res.Distribution["stress:handlers"] = agg["handlers"]
 	if tier == "thorough" {
 		raceChild(res, outdir, "C17.child", []string{"QV_C17_STRESS=300", "QV_C17_STRESS_FROM=0"}, "300 concurrent stress rounds on net.NewEndPoint")
-		raceChild(res, outdir, "C17.child", []string{"QV_C17_STRESS=0", "QV_C17_FROM=0", fmt.Sprintf("QV_C17_TO=%d", len(fixedScripts())+nRandom17("quick"))}, "the quick-tier operation sequences")
+		raceChild(res, outdir, "C17.child", []string{"QV_C17_STRESS=0", "QV_C17_FROM=0", fmt.Sprintf("QV_C17_TO=%d", nCases17("quick"))}, "the quick-tier operation sequences")
 	}
 }
